@@ -74,7 +74,8 @@ def cases(tier, seed, args):
             out.append(dict(t='oracle_inv', K=K, F=F, T=T, seed=int(rng.integers(1 << 30)),
                             metric=['cos', 'euclidean', 'multiply'][i % 3],
                             alg=['greedy', 'optimal'][(i // 3) % 2],
-                            glob=bool((i // 6) % 3 == 0)))
+                            glob=bool((i // 6) % 3 == 0),
+                            regime=['normal', 'close', 'tiny', 'normal', 'rowtiny', 'offset'][(i // 18) % 6]))
     if prop == 'C16plan':
         mx = int(args.get('max_stft', 24))
         for stft in range(2, mx + 1):
@@ -307,6 +308,19 @@ def _oracle_inv(case):
     # reference with pairwise distinct *normalised* rows in every bin
     ref = rng.random((K, F, T)) + 0.05
     ref[np.arange(K) % K, :, np.arange(K) % T] += 1.0 + np.arange(K)[:, None]
+    regime = case.get('regime', 'normal')
+    if regime in ('close', 'offset') and case['metric'] != 'euclidean':
+        regime = 'tiny'              # rows close relative to their norm are only distinguishable by the distance metric
+    if regime == 'rowtiny' and case['metric'] != 'cos':
+        regime = 'tiny'              # per-row scales only leave the *normalised* rows (cos) unchanged
+    if regime == 'close':            # near-uniform posteriors: pairwise distinct, far closer to each other than to zero
+        ref = 1.0 / K + 1e-9 * rng.standard_normal((K, F, T))
+    elif regime == 'offset':         # large common profile plus small class-specific part
+        ref = 1e4 * (rng.random((1, F, T)) + 0.5) + 1e-5 * rng.standard_normal((K, F, T))
+    elif regime == 'tiny':           # badly scaled mask (all entries ~1e-18 .. 1e-20)
+        ref = ref * float(rng.choice([1e-18, 1e-20, 1e-25]))
+    elif regime == 'rowtiny':        # some classes inactive in some bins (posteriors ~1e-20) but with clear directions
+        ref = ref * rng.choice([1.0, 1e-18, 1e-20, 1e-22], size=(K, F, 1))
     field = np.stack([rng.permutation(K) for _ in range(F)], axis=1)
     if case['glob']:
         field = np.repeat(rng.permutation(K)[:, None], F, axis=1)
@@ -325,7 +339,7 @@ def _oracle_inv(case):
         out, exc2 = _call(al, mask, ref)
         exc = exc or exc2
     return [_apply_record(before, mask, mapping, out, exc,
-                          f'aligner=oracle;inv;metric={case["metric"]};alg={case["alg"]};glob={case["glob"]}',
+                          f'aligner=oracle;inv;metric={case["metric"]};alg={case["alg"]};glob={case["glob"]};regime={regime}',
                           f'oinv:{case["seed"]}', ref=ref)]
 
 
